@@ -1282,7 +1282,7 @@ class Datetime(Formatter, level=10, fmt="%Y-%m-%d %H:%M:%S.%f"):
                 "level": 10,
             },
             "year_cut": {
-                "value": lambda x: f"19{x}",
+                "value": lambda x: f"19{x.rjust(2, '0')}",
                 "level": 10,
             },
             "year_default": {
